@@ -1,0 +1,31 @@
+//go:build verif
+
+package types
+
+// Contracts for the deductive verifier in /verif (govc). Comment-only; compiled only with -tags verif.
+
+// ---- C41: the quota test and the flow update (all amounts mathematical integers; channel value and percentages >= 0)
+
+//@ spec func threshold(value int, pct int) int = (value * pct) / 100
+
+//@ contract (*Quota).CheckExceedsQuota
+//@   let Q = deref(q)
+//@   let pct = ite(direction == PACKET_RECV, Q.MaxPercentRecv, Q.MaxPercentSend)
+//@   ensures exceeds_iff_above_floor_of_percentage: totalValue >= 0 && pct >= 0 ==> result == (totalValue != 0 && amount > threshold(totalValue, pct))
+//@   ensures no_value_no_limit: totalValue == 0 ==> !result
+
+//@ contract (*Flow).AddInflow
+//@   let F0 = deref(f)
+//@   let net = F0.Inflow - F0.Outflow + amount
+//@   modifies *f
+//@   ensures accepted_iff_within_quota: F0.ChannelValue >= 0 && quota.MaxPercentRecv >= 0 ==> (err == nil) == (F0.ChannelValue == 0 || net <= threshold(F0.ChannelValue, quota.MaxPercentRecv))
+//@   ensures accepted_adds_exactly: err == nil ==> deref(f).Inflow == F0.Inflow + amount && deref(f).Outflow == F0.Outflow && deref(f).ChannelValue == F0.ChannelValue
+//@   ensures rejected_unchanged: err != nil ==> deref(f) == F0
+
+//@ contract (*Flow).AddOutflow
+//@   let F0 = deref(f)
+//@   let net = F0.Outflow - F0.Inflow + amount
+//@   modifies *f
+//@   ensures accepted_iff_within_quota: F0.ChannelValue >= 0 && quota.MaxPercentSend >= 0 ==> (err == nil) == (F0.ChannelValue == 0 || net <= threshold(F0.ChannelValue, quota.MaxPercentSend))
+//@   ensures accepted_adds_exactly: err == nil ==> deref(f).Outflow == F0.Outflow + amount && deref(f).Inflow == F0.Inflow && deref(f).ChannelValue == F0.ChannelValue
+//@   ensures rejected_unchanged: err != nil ==> deref(f) == F0
